@@ -25,14 +25,15 @@ theorem key_lt_of_idx {a : Sk} {hole} {k : Nat} (hw : WfS a hole) (hk : k ∈ a.
 
 /-- the callback of a compound request's sub-request is an exception of `orphan` only for a compound request
     that has a sub-request in the first place -/
-theorem StepS.drop_xi {xf d} {a b : Sk} {id : Nat} (h : StepS xf (some id) d a b) (hno : ¬ a.NoSub id) :
-    StepS xf none d a b where
+theorem StepS.drop_xi {xf xt d} {a b : Sk} {id : Nat} (h : StepT xf (some id) xt d a b) (hno : ¬ a.NoSub id) :
+    StepT xf none xt d a b where
   faults := h.faults
   kMono := h.kMono
   keyMono := h.keyMono
   idxNew := h.idxNew
   unl := h.unl
   debtAlive := h.debtAlive
+  prog := h.prog
   orphan := fun i hi _ hn => by
     by_cases he : i = id
     · exact absurd (he ▸ hn) hno
@@ -45,16 +46,30 @@ def ownerId : Owner → Option Nat
 theorem exId_callback (o : Owner) (r st t rec) : exId (.callback o r st t rec) = ownerId o := by
   cases o <;> rfl
 
-/-- a step made on behalf of the owner of a linked query `k` is an ordinary step -/
+theorem post_callback_user {s : St} {r : St × Ret} {o : Owner} {react st t rec}
+    (h : Post s r (.callback o react st t rec)) : ∀ tok, o = .user tok → tok ∈ r.1.sk.doneToks := by
+  intro tok ho; subst ho; exact h
+
+/-- a step made on behalf of the owner of a linked query `k`, after which the owner's callback has been made, is
+    an ordinary step -/
 theorem StepS.drop_owner {xf d} {a b : Sk} {hole} {k : Nat} {e : QSk} (_hw : WfS a hole) (hq : a.q? k = some e)
-    (hk : k ∈ a.idx) (h : StepS xf (ownerId e.owner) d a b) : StepS xf none d a b := by
+    (hk : k ∈ a.idx) (h : StepT xf (ownerId e.owner) (ownerTok e.owner) d a b)
+    (hdone : ∀ tok, e.owner = .user tok → tok ∈ b.doneToks) : StepS xf none d a b := by
   cases ho : e.owner with
   | client id =>
     rw [ho] at h
     refine StepS.drop_xi h (fun hn => ?_)
     exact hn (k, e.owner) (Sk.q?_mem_proj hq).2.1 hk ho
   | probe => rw [ho] at h; exact h
-  | user tok => rw [ho] at h; exact h
+  | user tok =>
+    rw [ho] at h
+    have hp := h.prog
+    exact ⟨h.faults, h.kMono, h.keyMono, h.idxNew, h.unl, h.orphan, h.debtAlive,
+      ⟨hp.doneMono, hp.lcRel, hp.allNew, hp.keysLt, hp.ownKeep, fun hl p hpm hpi hn tok' ho' => by
+        rcases hp.done6 hl p hpm hpi hn tok' ho' with h' | h'
+        · exact Or.inl h'
+        · have : tok' = tok := Option.some.inj h'
+          exact Or.inl (this ▸ hdone tok ho)⟩⟩
 
 theorem sk_userCallback' (s : St) (tok : Nat) (st : Status) (t : Nat) (dg : String) :
     (s.userCallback tok st t dg).sk = s.sk.userCb tok := sk_userCallback s tok st t dg
@@ -73,11 +88,13 @@ theorem good_userCb {go} (hgo : GoOk go) {d tok react st timeouts dg s}
     rw [hsk]; exact step_userCb hw (fun c hcm he => (hc c hcm he).2)
   unfold bodyUserCb
   simp only
+  have hdone1 : tok ∈ (s.userCallback tok st timeouts dg).sk.doneToks := by
+    rw [hsk]; exact List.mem_append.mpr (Or.inr (List.mem_singleton.mpr rfl))
   split
-  · exact Or.inr ⟨hw1, hd1, hs1, trivial⟩
+  · exact Or.inr ⟨hw1, hd1, hs1, hdone1⟩
   · rcases hgo.2 d (.reactions react) _ (show Wf _ ∧ DebtOk none d _ from ⟨hw1, hd1⟩) with hoof | hg
     · exact Or.inl hoof
-    · exact Or.inr ⟨hg.wf, hg.debt, hs1.trans hg.step, trivial⟩
+    · exact Or.inr ⟨hg.wf, hg.debt, hs1.trans hg.step, hg.step.prog.doneMono tok hdone1⟩
 
 /-! ### `callback` -/
 
@@ -136,7 +153,7 @@ theorem good_callback {go} (hgo : GoOk go) {d owner react st timeouts rec s}
     rcases hgo.2 d (.userCb tok react st timeouts (digest rec)) s
       ⟨hw, ⟨none, hdf, fun _ _ he => by cases he⟩, h1, h2, fun c hc he => absurd he (h3 c hc)⟩ with hoof | hg
     · exact Or.inl hoof
-    · exact Or.inr ⟨hg.wf, hg.debt, hg.step, trivial⟩
+    · exact Or.inr ⟨hg.wf, hg.debt, hg.step, hg.post⟩
   | client id =>
     obtain ⟨c0, hc0, hid0, hm0, hp0, hu0⟩ := client?_of_active hw hof
     simp only [hc0]
@@ -242,13 +259,28 @@ theorem good_endQuery {go} (hgo : GoOk go) {d srv key st rec s} (hpre : Pre d s 
     rw [sk_freeQuery]
     have hs := hg.step
     rw [exId_callback, hsk3] at hs
-    have h03 : StepS none (ownerId q.sk.owner) d s.sk s4.sk := (step_detach hw hqs).trans hs
-    exact (StepS.drop_owner hw hqs hk h03).trans (step_freeQuery hg.wf)
+    have h03 : StepT none (ownerId q.sk.owner) (ownerTok q.sk.owner) d s.sk s4.sk :=
+      (step_detach hw hqs).trans hs.toT
+    have h04 : StepS none none d s.sk s4.sk := StepS.drop_owner hw hqs hk h03 (post_callback_user hg.post)
+    have h45 : StepS none none d s4.sk (s4.sk.freeQuery key) := by
+      have := step_freeQuery (xf := none) (xi := none) (d := d) (k := key) hg.wf
+      -- the query is no longer linked, so no callback is in flight
+      refine ⟨this.faults, this.kMono, this.keyMono, this.idxNew, this.unl, this.orphan, this.debtAlive, ?_⟩
+      have hp := this.prog
+      exact ⟨hp.doneMono, hp.lcRel, hp.allNew, hp.keysLt, hp.ownKeep,
+        fun _ p _ hpi hn => absurd hpi (fun hpi' => by
+          -- a key that leaves the table by releasing `key` is `key`, which is not in the table
+          by_cases he : p.1 = key
+          · exact hnk (he ▸ hpi')
+          · apply hn
+            rw [Sk.freeQuery_eq]
+            show p.1 ∈ ((s4.sk.detach key).dropQ key).idx
+            cases hq4 : s4.sk.q? key with
+            | none => rw [detach_none hq4]; exact hpi'
+            | some e4 => exact (mem_idx_detach hg.wf hq4).mpr ⟨hpi', he⟩)⟩
+    exact h04.trans h45
 
 /-! ### `cancelLoop` -/
-
-def cancelHead (s : St) (fromAll : Bool) : Option Nat :=
-  if fromAll then s.all.head? else (s.listCopy.head?).bind (·.head?)
 
 theorem bodyCancelLoop_none (go) (st : Status) (fromAll : Bool) (s : St) (h : cancelHead s fromAll = none) :
     bodyCancelLoop go st fromAll s = (s, .ok) := by
@@ -281,7 +313,7 @@ theorem good_cancelLoop {go} (hgo : GoOk go) {d st fromAll s} (hpre : Pre d s (.
   cases hh : cancelHead s fromAll with
   | none =>
     rw [bodyCancelLoop_none go st fromAll s hh]
-    exact Or.inr ⟨hw, hd, StepS.refl _ _ _ _, trivial⟩
+    exact Or.inr ⟨hw, hd, StepS.refl _ _ _ _, hh⟩
   | some key =>
     have hk := cancelHead_idx hw hh
     obtain ⟨q, hq, hqs⟩ := query?_of_idx hw hk
@@ -298,10 +330,14 @@ theorem good_cancelLoop {go} (hgo : GoOk go) {d st fromAll s} (hpre : Pre d s (.
     · exact Or.inl (hgo.1 _ _ hoof)
     rcases hgo.2 d (.cancelLoop st fromAll) s2 ⟨hg.wf, hg.debt⟩ with hoof2 | hg2
     · exact Or.inl hoof2
-    refine Or.inr ⟨hg2.wf, hg2.debt, ?_, trivial⟩
+    refine Or.inr ⟨hg2.wf, hg2.debt, ?_, hg2.post⟩
     have hs := hg.step
     rw [exId_callback, hsk1] at hs
-    have h02 : StepS none (ownerId q.sk.owner) d s.sk s2.sk := (step_freeQuery hw).trans hs
-    exact (StepS.drop_owner hw hqs hk h02).trans hg2.step
+    have hft : freeTok s.sk key = ownerTok q.sk.owner := by unfold freeTok; rw [hqs]
+    have h01 : StepT none (ownerId q.sk.owner) (ownerTok q.sk.owner) d s.sk (s.sk.freeQuery key) := by
+      have := step_freeQuery (xf := none) (xi := ownerId q.sk.owner) (d := d) (k := key) hw
+      rwa [hft] at this
+    have h02 : StepT none (ownerId q.sk.owner) (ownerTok q.sk.owner) d s.sk s2.sk := h01.trans hs.toT
+    exact (StepS.drop_owner hw hqs hk h02 (post_callback_user hg.post)).trans hg2.step
 
 end Cares.Chan
